@@ -18,7 +18,7 @@ using Str = std::string;
 
 struct Case {
     std::vector<uint8_t> bytes;
-    int                  gen2{0}; // 1: operations 38 / 39 are "merge a sized-but-empty temporary" / "assign from an own descendant" (absent in older replay files: 0)
+    int                  gen2{0}; // 2: as 1, and operation 38 also builds reserved arrays with nested holes; 1: operations 38 / 39 are "merge a sized-but-empty temporary" / "assign from an own descendant" (absent in older replay files: 0)
 };
 
 // ------------------------------------------------------------------------------------------------ model
@@ -639,6 +639,51 @@ struct Runner {
                 interesting = true;
                 break;
             }
+            case 9:
+                if (gen2 >= 2) { // a reserved array: room it does not use, elements written into the room - some of them arrays that lose an
+                                 // element -, then (mostly) Compress(): removed elements go at every level, whatever the capacities are
+                    const unsigned room = 2 + size;
+                    *t.v                = VC{ValueType::Array, SizeT(room)};
+                    m                   = MV{};
+                    m.k                 = MK::Arr;
+                    const unsigned n    = 1 + e.below(room - 1);
+                    for (unsigned i = 0; i < n; ++i) {
+                        MV x;
+                        if (e.chance(50)) {
+                            VC             nested;
+                            const unsigned cnt = 1 + e.below(4);
+                            x.k                = MK::Arr;
+                            for (unsigned j = 0; j < cnt; ++j) {
+                                nested += SizeT64(j + 1);
+                                MV y;
+                                y.k = MK::UInt;
+                                y.u = j + 1;
+                                x.arr.push_back(y);
+                            }
+                            if (e.chance(70)) {
+                                const unsigned idx = e.below(cnt);
+                                nested.RemoveIndex(SizeT(idx));
+                                x.arr[idx] = MV{};
+                            }
+                            (*t.v)[SizeT(i)] = Memory::Move(nested);
+                        } else {
+                            (*t.v)[SizeT(i)] = SizeT64(i);
+                            x.k              = MK::UInt;
+                            x.u              = i;
+                        }
+                        m.arr.push_back(x);
+                    }
+                    trace += "=reserved-array(" + std::to_string(room) + "," + std::to_string(n) + ");";
+                    if (e.chance(60)) {
+                        t.v->Compress();
+                        compress_model(m);
+                        trace += "Compress;";
+                    }
+                    interesting = true;
+                    ctx.label("reserved-array-with-nested-holes");
+                    break;
+                }
+                // fall through
             default: { // an own element / member moved to the end of its own array (a += move(a[i])): rotates it to the back, leaves Undefined behind
                 if (m.k != MK::Arr || m.arr.empty() || has_ptr(m)) {
                     break;
@@ -1329,7 +1374,7 @@ struct H {
     static const char *name() { return "C12 Value as a JSON document"; }
     static rc::Gen<Case> gen() {
         using namespace rc;
-        return gen::map(gen::tuple(gen::resize(400, gen::container<std::vector<uint8_t>>(gen::arbitrary<uint8_t>())), pbt::pick<int>({0, 1, 1})),
+        return gen::map(gen::tuple(gen::resize(400, gen::container<std::vector<uint8_t>>(gen::arbitrary<uint8_t>())), pbt::pick<int>({0, 1, 2, 2})),
                         [](std::tuple<std::vector<uint8_t>, int> t) {
                             Case c;
                             c.bytes = std::get<0>(t);
@@ -1340,7 +1385,7 @@ struct H {
     // coverage-guided mode: the bytes are the entropy
     static bool from_fuzz(const uint8_t *d, size_t n, Case &c) {
         c.bytes.assign(d, d + n);
-        c.gen2 = 1;
+        c.gen2 = 2;
         return true;
     }
     static std::string to_text(const Case &c) {
